@@ -165,8 +165,54 @@ def h_allzero(ctx, cfg):
     ctx.prove(ctx.eq(out[n], zero), "allzero-yields-zero-value", "n=%d" % n)
 
 
+def h_repeated(ctx, cfg):
+  """Calls do not influence each other: the same filter object called twice, and a second filter object of the same
+  structure (same delays) with other coefficients, each with its own zero value, memory and input - every run
+  satisfies its own difference equation (whatever a call may cache must not leak into the next)."""
+  nb, na, N = cfg["nb"], cfg["na"], cfg["N"]
+  allzero = cfg.get("allzero", False)
+  def one(tag, filt, b, a):
+    x = ctx.reals(tag + "x", N); zero = ctx.real(tag + "zero"); mem = ctx.reals(tag + "m", na - 1)
+    out = list(filt(list(x), memory=list(mem) if cfg["mem"] else None, zero=zero))
+    ctx.prove(len(out) == N, "one-output-per-input", "%s: len(out)=%d" % (tag, len(out)))
+    # the property singles out the all-zero filter (it outputs the zero value itself)
+    if allzero or (all(bool(c == 0) for c in b) and all(bool(c == 0) for c in a[1:])):
+      for n in range(len(out)): ctx.prove(ctx.eq(out[n], zero), "allzero-yields-zero-value", "%s n=%d" % (tag, n))
+      return
+    for n in range(len(out)):
+      acc = 0
+      for k, c in enumerate(b): acc = acc + c * (x[n - k] if n - k >= 0 else zero)
+      for k, c in enumerate(a):
+        if k == 0: continue
+        prev = out[n - k] if n - k >= 0 else ((mem[k - n - 1] if cfg["mem"] else zero))
+        acc = acc - c * prev
+      ctx.prove(ctx.eq(a[0] * out[n], acc), "difference-equation", "%s n=%d" % (tag, n))
+  def coefs(tag):
+    b = ctx.reals(tag + "b", nb); a = ctx.reals(tag + "a", na)
+    ctx.assume(a[0] != 0)
+    if allzero:
+      for c in b + a[1:]: ctx.assume(c == 0)
+    return b, a
+  b1, a1 = coefs("f"); f1 = _build("lists", b1, a1)
+  one("call1", f1, b1, a1)
+  one("call2", f1, b1, a1)                 # the same object again, other input / zero / memory
+  # another filter of the same structure (same delays) with other coefficient values: fixed small integers, so that
+  # it adds no branching of its own (on the paths where f's coefficients are 2, 3, ... it is an equal filter)
+  if allzero:
+    b2, a2 = [0] * nb, [3] + [0] * (na - 1)
+  else:
+    b2, a2 = [2 + 3 * i for i in range(nb)], [7] + [5 - 2 * i for i in range(na - 1)]
+  f2 = _build("lists", b2, a2)
+  one("other", f2, b2, a2)
+  one("call3", f1, b1, a1)
+
+
 def tasks(tier, seed):
   T = []
+  for nb, na, mem in ((1, 1, False), (2, 1, False), (1, 2, True), (2, 2, True)):
+    T.append(("h_repeated", {"nb": nb, "na": na, "N": 2, "mem": mem}))
+  for nb, na in ((1, 1), (2, 2), (0, 1)):
+    T.append(("h_repeated", {"nb": nb, "na": na, "N": 2, "mem": False, "allzero": True}))
   if tier == "quick":
     shapes = [(nb, na, N) for nb in (1, 2, 3) for na in (1, 2, 3) for N in (0, 3)]
     mems = ["none", "exact"]
